@@ -34,13 +34,25 @@ func deepParts(pattern string) (open, clos []byte, levelsPer int, ok bool) {
 	return nil, nil, 0, false
 }
 
-// deepMsg: d repetitions of the pattern below the top-level struct.
-func deepMsg(pattern string, d int) (msg []byte, levels int) {
+// deepMsg: pre repetitions of the prefix pattern, then d repetitions of the pattern, below the
+// top-level struct.
+func deepMsg(prefix string, pre int, pattern string, d int) (msg []byte, levels int) {
 	open, clos, per, ok := deepParts(pattern)
 	if !ok {
 		panic("harness: unknown deep pattern " + pattern)
 	}
-	msg = make([]byte, 0, d*(len(open)+len(clos)+1)+1)
+	var popen, pclos []byte
+	pper := 0
+	if pre > 0 {
+		popen, pclos, pper, ok = deepParts(prefix)
+		if !ok {
+			panic("harness: unknown deep pattern " + prefix)
+		}
+	}
+	msg = make([]byte, 0, d*(len(open)+len(clos)+1)+pre*(len(popen)+len(pclos)+1)+1)
+	for i := 0; i < pre; i++ {
+		msg = append(msg, popen...)
+	}
 	for i := 0; i < d; i++ {
 		msg = append(msg, open...)
 	}
@@ -49,11 +61,53 @@ func deepMsg(pattern string, d int) (msg []byte, levels int) {
 		msg = append(msg, clos...)
 		msg = append(msg, 0) // STOP of the enclosing struct
 	}
-	return msg, 1 + d*per
+	for i := 0; i < pre; i++ {
+		msg = append(msg, pclos...)
+		msg = append(msg, 0)
+	}
+	return msg, 1 + d*per + pre*pper
 }
 
-func (c *stepCtx) deepOne(ty, pattern string, d int) (string, bool) {
-	msg, levels := deepMsg(pattern, d)
+// wideMsg: a shallow message (3 levels) holding one container with n entries of empty structs:
+// "widelist" Re.3 list<*Re>, "widemap" Re.4 map<string,*Re>, "wideulist" unknown list<struct>
+func wideMsg(pattern string, n int) (msg []byte, levels int) {
+	be := []byte{byte(n >> 24), byte(n >> 16), byte(n >> 8), byte(n)}
+	switch pattern {
+	case "widelist":
+		msg = append([]byte{15, 0, 3, 12}, be...)
+		for i := 0; i < n; i++ {
+			msg = append(msg, 0)
+		}
+	case "wideulist":
+		msg = append([]byte{15, 0, 99, 12}, be...)
+		for i := 0; i < n; i++ {
+			msg = append(msg, 0)
+		}
+	case "widemap":
+		msg = append([]byte{13, 0, 4, 11, 12}, be...)
+		for i := 0; i < n; i++ {
+			k := fmt.Sprintf("%07d", i)
+			msg = append(msg, 0, 0, 0, 7)
+			msg = append(msg, k...)
+			msg = append(msg, 0)
+		}
+	default:
+		panic("harness: unknown wide pattern " + pattern)
+	}
+	return append(msg, 0), 3
+}
+
+func (c *stepCtx) deepOne(ty, prefix string, pre int, pattern string, d int) (string, bool) {
+	var msg []byte
+	var levels int
+	if len(pattern) > 4 && pattern[:4] == "wide" {
+		msg, levels = wideMsg(pattern, d)
+	} else {
+		msg, levels = deepMsg(prefix, pre, pattern, d)
+	}
+	if pre > 0 {
+		pattern = fmt.Sprintf("%s*%d+%s", prefix, pre, pattern)
+	}
 	dest := reflect.New(defs[ty].rt)
 	n, err, pan := callDecode(msg, dest.Interface())
 	head := fmt.Sprintf(`"ev":"Deep","ty":%q,"pattern":%q,"d":%d,"levels":%d,"len":%d,`, ty, pattern, d, levels, len(msg))
@@ -84,10 +138,12 @@ func valOrEmpty(ty string, dest reflect.Value, full bool) string {
 func (c *stepCtx) stepDeep(st map[string]interface{}) []string {
 	ty := str(st, "ty", "")
 	pattern := str(st, "pattern", "struct")
+	prefix := str(st, "prefix", "")
+	pre := num(st, "pre", 0)
 	var lines []string
 	maxOK, minRej := 0, -1
 	probe := func(d int) {
-		line, ok := c.deepOne(ty, pattern, d)
+		line, ok := c.deepOne(ty, prefix, pre, pattern, d)
 		c.emitLine(line) // at once: a later probe may kill the process
 		if ok {
 			if d > maxOK {
